@@ -716,7 +716,7 @@ impl Xot {
                                 Span::from_prefix_name(prefix, local),
                                 self,
                             )?;
-                        } else if local.as_str() == "xmlns" {
+                        } else if prefix.is_empty() && local.as_str() == "xmlns" {
                             builder.prefix(
                                 "",
                                 value.as_str(),
